@@ -139,6 +139,10 @@ def run_history(cfg, tape):
             with contextlib.redirect_stdout(io.StringIO()):
                 call(st.fit, data, epochs=cfg["E"], starting_epoch=cfg["e0"], pos_batch_size=2, lr=0.1, callbacks=cbs, **kw)
                 first_len = (len(me), len(oe))
+                if len(me):
+                    _ = (me.a, me["b"], list(me.epochs), me.last)  # a user inspecting the records between two runs
+                if len(oe):
+                    _ = (oe.SigmaZ.mean, list(oe.epochs), oe.last)
                 if cfg["mode"] != "single":
                     st.stop_training = False
                     if cfg["mode"] == "two-clear":
@@ -148,7 +152,10 @@ def run_history(cfg, tape):
                             out.append(("periodic:clear_history-leaves-records", dict(me=len(me), oe=len(oe), last=str(me.last))))
                     state["fit"] = 1
                     e1 = max(cfg["E"], cfg["e0"] - 1) + 1
-                    call(st.fit, data, epochs=e1 + 1, starting_epoch=e1, pos_batch_size=2, lr=0.1, callbacks=cbs, **kw)
+                    # after clear_history the second run has as many epochs as the first actually ran
+                    # (same number of records again); otherwise two more epochs
+                    n2 = max(len([r for r in rec if r["fit"] == 0]), 1) if cfg["mode"] == "two-clear" else 2
+                    call(st.fit, data, epochs=e1 + n2 - 1, starting_epoch=e1, pos_batch_size=2, lr=0.1, callbacks=cbs, **kw)
         except LibRaised as e:
             return [(f"periodic:fit-raised:{e.kind}:{e.site}", dict(error=str(e), tb=e.tb))], 0
         nev = len(rec)
